@@ -192,6 +192,29 @@ def run(tier, seed):
             if real[2:] != model[2:] or len(real) != len(model):
                 ck.disagree('parse_ilog_data differs from model', rp | {'impl': real[:5], 'model': model[:5]})
         iod.check_optimised(ck, opt_calls, 'ILOG samples')
+        # ---- a header file given by a RELATIVE name (also one that is spelled like a shipped file): it is the file in the current directory
+        synth0 = [pth for nm, pth in loader_files if nm.startswith('synth') and os.path.exists(pth)]
+        if synth0:
+            import re as _re0
+            cwd = os.getcwd()
+            rel_dir = os.path.join(tmp, 'cwd_rel')
+            os.makedirs(rel_dir, exist_ok=True)
+            try:
+                os.chdir(rel_dir)
+                for relname in ('mex_pte.h', 'nimitz_pte.h', 'my_table.h'):
+                    src_ = rng.choice(synth0)
+                    shutil.copyfile(src_, os.path.join(rel_dir, relname))
+                    pats_ = _re0.findall(r'"([0-9A-Fa-f*]{8})"', open(src_).read())[:60]
+                    vals_ = [int(pt.replace('*', '7'), 16) for pt in pats_] + [0x01040000]
+                    smp = b''.join(((i % 65535 << 48) | (i << 32) | v).to_bytes(8, 'big') for i, v in enumerate(vals_, 1))
+                    want_ = il.parse_ilog_data(memoryview(smp), src_)
+                    got_ = il.parse_ilog_data(memoryview(smp), relname)
+                    ck.case(key=('relative', relname, open(src_).read()))
+                    ck.count('header file by relative name')
+                    if got_ != want_:
+                        ck.fail('a header file given by a relative name is not the file of that name in the current directory', {'op': 'ilog-relative', 'case': relname, 'table': open(src_).read()[:1500]}, 'relative_header')
+            finally:
+                os.chdir(cwd)
         # ---- a header file that is rewritten between two decodes in one process
         synth = [pth for nm, pth in loader_files if nm.startswith('synth') and os.path.exists(pth)]
         import re as _re
